@@ -831,6 +831,14 @@ class CtxAwareTransformer(NodeTransformer):
         self.generic_visit(node)
         return node
 
+    def visit_ExceptHandler(self, node):
+        """Handle visiting an except clause: Python binds the name when the
+        handler is entered, whatever the try body did to it."""
+        if node.name is not None:
+            self.ctxadd(node.name)
+        self.generic_visit(node)
+        return node
+
     def visit_Global(self, node):
         """Handle visiting a global statement."""
         self.contexts[1].update(node.names)  # contexts[1] is the global ctx
